@@ -209,9 +209,10 @@ theorem isQ_normal_bounds {x : ℚ} {e : ℤ} {q : ℕ} (h : IsQ x e q) (h52 : 2
       _ ≤ 2 ^ 53 * 2 ^ e := mul_le_mul_of_nonneg_right b hp.le
       _ = (2 : ℚ) ^ (53 : ℤ) * 2 ^ e := by norm_cast
 
-/-- **the exponent `roundRat` chooses is the one at which the quotient has 53 bits** -/
-theorem expOf_eq (n d : ℕ) (hn : n ≠ 0) (hd : d ≠ 0) (e : ℤ) (he : -1074 ≤ e)
-    (h52 : 2 ^ 52 ≤ (divPow2 n d e).1) (h53 : (divPow2 n d e).1 < 2 ^ 53) : expOf n d = e := by
+/-- **the exponent `roundRat` chooses is the one at which the quotient has 53 bits**, clamped at -1074 -/
+theorem expOf_eq' (n d : ℕ) (hn : n ≠ 0) (hd : d ≠ 0) (e : ℤ)
+    (h52 : 2 ^ 52 ≤ (divPow2 n d e).1) (h53 : (divPow2 n d e).1 < 2 ^ 53) :
+    expOf n d = if e < -1074 then -1074 else e := by
   have hdpos : 0 < d := Nat.pos_of_ne_zero hd
   obtain ⟨lo, hi⟩ := log2_bounds n d hn hd
   obtain ⟨xlo, xhi⟩ := isQ_normal_bounds (divPow2_spec n d hdpos e).1 h52 h53
@@ -226,8 +227,6 @@ theorem expOf_eq (n d : ℕ) (hn : n ≠ 0) (hd : d ≠ 0) (e : ℤ) (he : -1074
     have n53 : ¬ (divPow2 n d e).1 ≥ 2 ^ 53 := by omega
     have n52 : ¬ (divPow2 n d e).1 < 2 ^ 52 := by omega
     simp only [n53, n52, if_false]
-    have : ¬ e < -1074 := by omega
-    simp only [this, if_false]
   · -- the quotient one exponent higher has 52 bits
     have hq0 := (divPow2_spec n d hdpos (k - 52)).1
     have hx : (n : ℚ) / d < 2 ^ (52 + (k - 52)) := by
@@ -243,9 +242,13 @@ theorem expOf_eq (n d : ℕ) (hn : n ≠ 0) (hd : d ≠ 0) (e : ℤ) (he : -1074
     have hltN : (divPow2 n d (k - 52)).1 < 2 ^ 52 := by exact_mod_cast hlt
     have n53 : ¬ (divPow2 n d (k - 52)).1 ≥ 2 ^ 53 := by omega
     simp only [n53, hltN, if_false, if_true]
-    have : ¬ (k - 52 - 1) < -1074 := by omega
-    simp only [this, if_false]
-    omega
+    rw [← h]
+
+theorem expOf_eq (n d : ℕ) (hn : n ≠ 0) (hd : d ≠ 0) (e : ℤ) (he : -1074 ≤ e)
+    (h52 : 2 ^ 52 ≤ (divPow2 n d e).1) (h53 : (divPow2 n d e).1 < 2 ^ 53) : expOf n d = e := by
+  rw [expOf_eq' n d hn hd e h52 h53]
+  have : ¬ e < -1074 := by omega
+  simp only [this, if_false]
 
 /-- **`roundRat` at a known normal exponent** -/
 theorem roundRat_at (neg : Bool) (n d : ℕ) (hn : n ≠ 0) (hd : d ≠ 0) (e : ℤ) (he : -1074 ≤ e)
@@ -263,5 +266,106 @@ theorem roundRat_of_isQ (neg : Bool) (n d : ℕ) (hn : n ≠ 0) (hd : d ≠ 0) (
   have e2 : (divPow2 n d e).2 = c := isC_unique sc hc
   have : divPow2 n d e = (q, c) := Prod.ext e1 e2
   rw [roundRat_at neg n d hn hd e he (by rw [e1]; exact h52) (by rw [e1]; exact h53), this]
+
+/-! ## one bit fewer -/
+
+theorem two_zpow_succ (e : ℤ) : (2 : ℚ) ^ (e + 1) = 2 * 2 ^ e := by
+  rw [zpow_add_one₀ (by norm_num)]; ring
+
+theorem cast_div_two (q : ℕ) : (q : ℚ) = 2 * ((q / 2 : ℕ) : ℚ) + ((q % 2 : ℕ) : ℚ) := by
+  have := Nat.div_add_mod q 2
+  have h2 : ((2 * (q / 2) + q % 2 : ℕ) : ℚ) = (q : ℚ) := by exact_mod_cast congrArg (Nat.cast (R := ℚ)) this
+  push_cast at h2
+  linarith
+
+theorem isQ_halve {x : ℚ} {e : ℤ} {q : ℕ} (h : IsQ x e q) : IsQ x (e + 1) (q / 2) := by
+  have hp := two_zpow_pos e
+  have hq := cast_div_two q
+  have hb : ((q % 2 : ℕ) : ℚ) ≤ 1 := by
+    have : q % 2 ≤ 1 := by omega
+    exact_mod_cast this
+  have hb0 : (0 : ℚ) ≤ ((q % 2 : ℕ) : ℚ) := by positivity
+  obtain ⟨h1, h2⟩ := h
+  rw [hq] at h1 h2
+  constructor
+  · rw [two_zpow_succ]
+    calc ((q / 2 : ℕ) : ℚ) * (2 * 2 ^ e) = (2 * ((q / 2 : ℕ) : ℚ)) * 2 ^ e := by ring
+      _ ≤ (2 * ((q / 2 : ℕ) : ℚ) + ((q % 2 : ℕ) : ℚ)) * 2 ^ e := by
+          apply mul_le_mul_of_nonneg_right _ hp.le; linarith
+      _ ≤ x := h1
+  · rw [two_zpow_succ]
+    calc x < (2 * ((q / 2 : ℕ) : ℚ) + ((q % 2 : ℕ) : ℚ) + 1) * 2 ^ e := h2
+      _ ≤ (2 * ((q / 2 : ℕ) : ℚ) + 2) * 2 ^ e := by
+          apply mul_le_mul_of_nonneg_right _ hp.le; linarith
+      _ = (((q / 2 : ℕ) : ℚ) + 1) * (2 * 2 ^ e) := by ring
+
+/-- the comparison with one half after dropping the last bit `b` of the quotient -/
+theorem isC_halve {x : ℚ} {e : ℤ} {q : ℕ} (h : IsQ x e q) :
+    IsC x (e + 1) (q / 2)
+      (if q % 2 = 0 then (if x = (q : ℚ) * 2 ^ e then 0 else 1) else (if x = (q : ℚ) * 2 ^ e then 2 else 3)) := by
+  have hp := two_zpow_pos e
+  have hq := cast_div_two q
+  obtain ⟨h1, h2⟩ := h
+  by_cases hb : q % 2 = 0
+  · have hb' : ((q % 2 : ℕ) : ℚ) = 0 := by rw [hb]; simp
+    rw [hb', add_zero] at hq
+    simp only [hb, if_true]
+    by_cases hx : x = (q : ℚ) * 2 ^ e
+    · simp only [hx, if_true]
+      left
+      refine ⟨rfl, ?_⟩
+      rw [two_zpow_succ, hq]; ring
+    · simp only [hx, if_false]
+      right; left
+      refine ⟨rfl, ?_, ?_⟩
+      · rw [two_zpow_succ]
+        have : ((q / 2 : ℕ) : ℚ) * (2 * 2 ^ e) = (q : ℚ) * 2 ^ e := by rw [hq]; ring
+        rw [this]; exact lt_of_le_of_ne h1 (Ne.symm hx)
+      · rw [two_zpow_succ]
+        have : (((q / 2 : ℕ) : ℚ) + 1 / 2) * (2 * 2 ^ e) = ((q : ℚ) + 1) * 2 ^ e := by rw [hq]; ring
+        rw [this]; exact h2
+  · have hb1 : q % 2 = 1 := by omega
+    have hb' : ((q % 2 : ℕ) : ℚ) = 1 := by rw [hb1]; simp
+    rw [hb'] at hq
+    simp only [hb, if_false]
+    have hmid : (((q / 2 : ℕ) : ℚ) + 1 / 2) * (2 * 2 ^ e) = (q : ℚ) * 2 ^ e := by rw [hq]; ring
+    by_cases hx : x = (q : ℚ) * 2 ^ e
+    · simp only [hx, if_true]
+      right; right; left
+      refine ⟨rfl, ?_⟩
+      rw [two_zpow_succ, hmid]
+    · simp only [hx, if_false]
+      right; right; right
+      refine ⟨rfl, ?_⟩
+      rw [two_zpow_succ, hmid]
+      exact lt_of_le_of_ne h1 (Ne.symm hx)
+
+/-- a value just below the smallest normal number that rounds up to it -/
+theorem roundRat_min_normal (neg : Bool) (n d : ℕ) (hn : n ≠ 0) (hd : d ≠ 0)
+    (hq : IsQ ((n : ℚ) / d) (-1075) (2 ^ 53 - 1)) (hx : (n : ℚ) / d ≠ ((2 ^ 53 - 1 : ℕ) : ℚ) * 2 ^ (-1075 : ℤ)) :
+    roundRat neg n d = (signBit neg + 2 ^ 52, false) := by
+  have hdpos := Nat.pos_of_ne_zero hd
+  -- 53 bits at -1075, so the exponent is clamped to -1074
+  obtain ⟨sq, _⟩ := divPow2_spec n d hdpos (-1075)
+  have e1 : (divPow2 n d (-1075)).1 = 2 ^ 53 - 1 := isQ_unique sq hq
+  have hexp : expOf n d = -1074 := by
+    rw [expOf_eq' n d hn hd (-1075) (by rw [e1]; norm_num) (by rw [e1]; norm_num)]
+    simp
+  have hq' : IsQ ((n : ℚ) / d) (-1075 + 1) ((2 ^ 53 - 1) / 2) := isQ_halve hq
+  have hc' := isC_halve hq
+  have hodd : (2 ^ 53 - 1) % 2 = 1 := by norm_num
+  simp only [hodd, hx, if_false] at hc'
+  have hodd' : ¬ (1 = 0) := by omega
+  simp only [hodd', if_false] at hc'
+  have e74 : (-1075 : ℤ) + 1 = -1074 := by norm_num
+  rw [e74] at hq' hc'
+  obtain ⟨sq2, sc2⟩ := divPow2_spec n d hdpos (-1074)
+  have f1 : (divPow2 n d (-1074)).1 = (2 ^ 53 - 1) / 2 := isQ_unique sq2 hq'
+  rw [f1] at sc2
+  have f2 : (divPow2 n d (-1074)).2 = 3 := isC_unique sc2 hc'
+  have hdp : divPow2 n d (-1074) = ((2 ^ 53 - 1) / 2, 3) := Prod.ext f1 f2
+  rw [roundRat_unfold neg n d hn hd, hexp, hdp]
+  simp only [roundAt, roundHalfEven]
+  norm_num
 
 end RJson.RoundRat
